@@ -2,14 +2,14 @@
 From Coq Require Import List ZArith Bool Arith Lia.
 Import ListNotations.
 From SAV.orm Require Import SessTxn SessTxnBase SessTxnSpec SessTxnInv SessTxnOps SessTxnRestore SessTxnRestore2
-  SessTxnShift SessTxnStmts SessTxnFlush SessTxnDbInv SessTxnCore SessTxnFlushCore SessTxnTx.
+  SessTxnShift SessTxnStmts SessTxnFlush SessTxnDbInv SessTxnCore SessTxnFlushCore SessTxnTx SessTxnMerge.
 Open Scope nat_scope.
 
 Definition FlushPost (st : sess) (r : res) (st' : sess) : Prop :=
   ids st' = ids st /\ nfid st' = nfid st /\ committed st' = committed st /\
   nobj st' = nobj st /\ handles st' = handles st /\ eoc st' = eoc st /\
   map lists_of (tl (stack st')) = map lists_of (tl (stack st)) /\
-  (r = Ok -> is_clean st' = true /\ hd_state st' = hd_state st) /\
+  (r = Ok -> is_clean st' = true /\ hd_state st' = hd_state st /\ KsGrow st st') /\
   (r <> Ok -> hd_state st' = hd_state st \/ (hd_state st = Some ACTIVE /\ hd_state st' = Some DEACTIVE /\ is_clean st' = true)).
 
 Lemma flush_core : forall st gs r st', Core st gs -> flush st = (r, st') -> r <> Unmodelled ->
@@ -20,7 +20,7 @@ Proof.
 Qed.
 
 Lemma FlushPost_refl : forall st, is_clean st = true -> FlushPost st Ok st.
-Proof. intros st H. unfold FlushPost. repeat split; auto. Qed.
+Proof. intros st H. unfold FlushPost. repeat split; auto; try apply KsGrow_refl; intros X; congruence. Qed.
 
 Lemma flush_loop_core : forall n st gs r st', Core st gs -> flush_loop (S (S n)) st = (r, st') -> r <> Unmodelled ->
   Core st' gs /\ FlushPost st r st'.
@@ -30,7 +30,7 @@ Proof.
   { inversion H; subst. split; [exact C|]. apply FlushPost_refl; auto. }
   apply bind_inv in H. destruct H as [[s1 [H1 H2]]|[H1 Hn]].
   - destruct (flush_core st gs Ok s1 C H1) as [C1 P1]; [discriminate|].
-    destruct P1 as (A1 & A2 & A3 & A4 & A5 & A6 & A7 & A8 & A9). destruct (A8 eq_refl) as [Cl Hh].
+    destruct P1 as (A1 & A2 & A3 & A4 & A5 & A6 & A7 & A8 & A9). destruct (A8 eq_refl) as [Cl [Hh Kg]].
     cbn [flush_loop] in H2. rewrite Cl in H2. inversion H2; subst r st'.
     split; [exact C1|]. unfold FlushPost. repeat split; auto; try (intros X; congruence).
   - exact (flush_core st gs r st' C H1 Hr).
@@ -153,4 +153,374 @@ Proof.
       [apply Main; cbn; auto; try (right; reflexivity); try (left; reflexivity)
       |destruct M as [M1 M2]; split; [exact M1|]; split; [reflexivity|]; split; [exact M2|]; cbn; repeat split; auto]
     end.
+Qed.
+
+Lemma ids_one : forall st st' f, ids st' = ids st -> stack st = [f] -> exists f', stack st' = [f'] /\ fid f' = fid f /\ fnested f' = fnested f.
+Proof.
+  intros st st' f H Hs. unfold ids in H. rewrite Hs in H. destruct (stack st') as [|f' [|x r]]; try discriminate.
+  cbn in H. inversion H. eauto.
+Qed.
+
+(* SessionTransaction.commit of the outermost transaction *)
+Lemma commit_head_root_core : forall st gs f r st', Core st gs -> stack st = [f] -> commit_head st = (r, st') -> r <> Unmodelled ->
+  (r = Ok /\ Core st' [] /\ stack st' = [] /\ is_clean st' = true /\ nobj st' = nobj st /\ handles st' = handles st /\ eoc st' = eoc st) \/
+  (r <> Ok /\ Core st' gs /\ nobj st' = nobj st /\ handles st' = handles st /\ eoc st' = eoc st /\ committed st' = committed st).
+Proof.
+  intros st gs f r st' C Hs H Hr.
+  destruct (Core_head_state st gs f [] C Hs) as [Hf|Hf].
+  2:{ unfold commit_head in H. rewrite Hs in H. unfold check_prereq in H. rewrite Hf in H. cbn in H.
+      inversion H; subst. right. split; [discriminate|]. split; [exact C|]. repeat split; reflexivity. }
+  rewrite (commit_head_split st f [] Hs Hf) in H. apply bind_inv in H. destruct H as [[s1 [H1 H2]]|[H1 Hn]].
+  - destruct (flush_loop_core 98 st gs Ok s1 C H1) as [C1 P1]; [discriminate|].
+    destruct P1 as (A1 & A2 & A3 & A4 & A5 & A6 & A7 & A8 & A9). destruct (A8 eq_refl) as [Cl [Hh Kg]].
+    destruct (ids_one st s1 f A1 Hs) as [f1 [Hs1 [I1 I2]]].
+    assert (Hf1 : fstate f1 = ACTIVE).
+    { unfold hd_state in Hh. rewrite Hs, Hs1 in Hh. congruence. }
+    destruct (Core_shape s1 gs f1 [] C1 Hs1) as [g [gs' Eg]]. subst gs.
+    assert (Hn1 : fnested f1 = false).
+    { destruct C1 as [_ _ D _ _]. destruct D as [D1 _ _ _]. rewrite Hs1 in D1. cbn in D1. destruct D1 as [_ [_ [F3 _]]].
+      destruct (fnested f1); auto. destruct F3 as [F3 _]. exfalso. apply (F3 eq_refl). reflexivity. }
+    rewrite (commit_tail_root s1 f1 Hs1 Hn1 Hf1) in H2. inversion H2; subst r st'.
+    destruct (root_final_core s1 g gs' f1 C1 Hs1 Hf1 Cl) as (R1 & R2 & R3 & R4 & R5 & R6 & R7 & R8 & R9).
+    left. split; [reflexivity|]. split; [exact R1|]. split; [exact R2|]. split; [exact R3|]. repeat split; congruence.
+  - destruct (flush_loop_core 98 st gs r st' C H1 Hr) as [C1 P1].
+    destruct P1 as (A1 & A2 & A3 & A4 & A5 & A6 & A7 & A8 & A9).
+    right. split; [exact Hn|]. split; [exact C1|]. repeat split; congruence.
+Qed.
+
+(* ------------------------------------------------------------------ releasing a savepoint *)
+Definition nested_final (st : sess) (f p : frame) (rest' : list frame) : sess :=
+  let st2 := if fconn f then set_db st (committed st) (work st) (tl (saves st)) else st in
+  set_stack st2 (merge_into p f :: rest').
+
+Lemma commit_tail_nested : forall st f p rest', stack st = f :: p :: rest' -> fnested f = true -> fstate f = ACTIVE ->
+  (fconn f = true -> exists w r, saves st = (fid f, w) :: r) ->
+  commit_tail st = (Ok, nested_final st f p rest').
+Proof.
+  intros st f p rest' Hs Hn Hf Hsv. destruct st as [e n ob sn sd stk hs cm wk sv nf]. cbn in Hs, Hsv. subst stk.
+  unfold commit_tail, nested_final, bind, lift, check_moves, head_db_commit, close_head, remove_snapshot, set_head_state, upd_head,
+    set_stack, db_release, set_db, ret.
+  cbn. rewrite Hn. cbn. destruct (fconn f) eqn:Ec.
+  - destruct (Hsv eq_refl) as [w [r E]]. subst sv. cbn. rewrite Nat.eqb_refl. cbn. rewrite Hn. cbn. rewrite andb_false_r.
+    unfold merge_into. cbn. reflexivity.
+  - cbn. rewrite ?Hn, ?Ec. cbn. rewrite ?andb_false_r, ?Ec. cbn. unfold merge_into. cbn. reflexivity.
+Qed.
+
+Lemma merge_skel : forall p f, skel (merge_into p f) = skel p.
+Proof. intros. reflexivity. Qed.
+
+Lemma nested_final_core : forall st g gs' f p rest', Core st (g :: gs') -> stack st = f :: p :: rest' -> fstate f = ACTIVE ->
+  is_clean st = true ->
+  (forall x, ks_find x (fks f) <> None -> ks_find x (fks p) = None) ->
+  Core (nested_final st f p rest') gs' /\ fnested f = true /\
+  (fconn f = true -> exists w r, saves st = (fid f, w) :: r).
+Proof.
+  intros st g gs' f p rest' C Hs Hf Hcl Hg. destruct C as [G Jh D Ch Em].
+  pose proof Hcl as Hcl0. apply is_clean_spec in Hcl. destruct Hcl as [Hsn [Hsd Hmod]].
+  unfold Chain in Ch. rewrite Hs, Hf in Ch. destruct Ch as [GC [R CG]].
+  destruct gs' as [|gp gs'']; [destruct CG|]. cbn [ChainG] in CG. destruct CG as [GCp [L CG']].
+  destruct D as [D1 D2 D4 D5]. rewrite Hs in D1, D4, D5. destruct D5 as [D5 D6].
+  cbn [FramesOk] in D1. destruct D1 as [F1 [F2 [F3 [F4 F5]]]].
+  assert (Hn : fnested f = true) by (apply (proj2 F3); discriminate).
+  assert (Hp : fstate p = ACTIVE) by (apply F5; left; reflexivity).
+  assert (Hent : entries (f :: p :: rest') (g :: gp :: gs'') =
+                 if fconn f then (fid f, gW g) :: entries (p :: rest') (gp :: gs'') else entries (p :: rest') (gp :: gs'')).
+  { cbn [entries]. unfold live_conn at 1. rewrite Hn, Hf. cbn [live_state]. rewrite !andb_true_r. reflexivity. }
+  split; [|split; [exact Hn|]].
+  2:{ intros Ec. rewrite D5, Hent, Ec. eauto. }
+  assert (Hsv' : saves (nested_final st f p rest') = entries (p :: rest') (gp :: gs'')).
+  { unfold nested_final. destruct (fconn f) eqn:Ec; cbn; rewrite D5, Hent; reflexivity. }
+  assert (Hsame : objs (nested_final st f p rest') = objs st /\ nobj (nested_final st f p rest') = nobj st /\
+                  snew (nested_final st f p rest') = snew st /\ sdel (nested_final st f p rest') = sdel st /\
+                  work (nested_final st f p rest') = work st /\ committed (nested_final st f p rest') = committed st /\
+                  nfid (nested_final st f p rest') = nfid st /\ stack (nested_final st f p rest') = merge_into p f :: rest').
+  { unfold nested_final. destruct (fconn f); cbn; repeat split; reflexivity. }
+  destruct Hsame as (E1 & E2 & E3 & E4 & E5 & E6 & E7 & E8).
+  assert (Hsk : map skel (p :: rest') = map skel (merge_into p f :: rest')) by reflexivity.
+  constructor.
+  - unfold GoodS. rewrite E1, E2, E3, E4, E5. exact G.
+  - rewrite E1, E2. exact Jh.
+  - constructor; rewrite ?E5, ?E6, ?E7, ?E8.
+    + eapply FramesOk_skel; [exact Hsk|]. eapply FramesOk_weaken; [exact F2|lia].
+    + left. exact Hp.
+    + intros Hnc.
+      assert (Ecp : fconn p = false) by (apply (Hnc (merge_into p f)); left; reflexivity).
+      assert (Ecf : fconn f = false).
+      { destruct (fconn f) eqn:Ec; auto. rewrite (F4 eq_refl p (or_introl eq_refl)) in Ecp. discriminate. }
+      apply D4. intros f' [X|[X|X]]; [subst; auto|subst; auto|].
+      apply (Hnc f'). right. exact X.
+    + eapply SavesOk_skel; [exact Hsk|]. split; [exact Hsv'|].
+      cbn [SnapOk] in D6. destruct D6 as [Q1 Q2].
+      destruct (fconn p) eqn:Ecp.
+      * cbn [SnapOk] in *. rewrite Ecp in *. exact Q2.
+      * assert (Ecf : fconn f = false).
+        { destruct (fconn f) eqn:Ec; auto. rewrite (F4 eq_refl p (or_introl eq_refl)) in Ecp. discriminate. }
+        rewrite Ecf in Q1. rewrite <- Q1. cbn [SnapOk]. rewrite Ecp. exact Q2.
+  - unfold Chain. rewrite E8. split; [exact GCp|]. split; [|exact CG'].
+    assert (Hm : fstate (merge_into p f) = ACTIVE) by exact Hp. rewrite Hm.
+    rewrite E1, E2, E3, E4, E5, Hsn, Hsd.
+    unfold GoodS in G. rewrite Hsn, Hsd in R, G.
+    apply (Rel_merge gp g p f (objs st) (nobj st) (work st)); auto.
+  - rewrite E8. intros X. discriminate.
+Qed.
+
+(* ------------------------------------------------------------------ guard g2 as a property of key-switch domains *)
+Definition kdom (l : list (nat * (Z * Z))) (x : nat) : Prop := ks_find x l <> None.
+(* [A] is disjoint from every domain of the list, and the domains are pairwise disjoint *)
+Fixpoint PD (A : nat -> Prop) (kss : list (list (nat * (Z * Z)))) : Prop :=
+  match kss with
+  | [] => True
+  | k :: r => (forall x, A x -> ~ kdom k x) /\ PD (fun x => A x \/ kdom k x) r
+  end.
+Lemma PD_mono : forall kss (A A' : nat -> Prop), (forall x, A' x -> A x) -> PD A kss -> PD A' kss.
+Proof.
+  induction kss as [|k r IH]; intros A A' H P; cbn in *; auto. destruct P as [P1 P2]. split.
+  - intros x Hx. apply P1. auto.
+  - eapply IH; [|exact P2]. intros x [X|X]; auto.
+Qed.
+Lemma PD_firstn : forall kss A n, PD A kss -> PD A (firstn n kss).
+Proof.
+  induction kss as [|k r IH]; intros A n P; destruct n; cbn in *; auto. destruct P as [P1 P2]. split; auto.
+Qed.
+
+(* an object of the identity map with an unflushed primary-key change *)
+Definition pend (st : sess) (x : nat) : Prop := oin (objs st x) = true /\ upd_sets_id (objs st x) = true.
+Definition hdA (st : sess) (x : nat) : Prop :=
+  match stack st with f :: _ => kdom (fks f) x | [] => False end \/ pend st x.
+
+Lemma clean_no_pend : forall st gs x, Core st gs -> is_clean st = true -> ~ pend st x.
+Proof.
+  intros st gs x C Hcl [H1 H2]. apply is_clean_spec in Hcl. destruct Hcl as [_ [_ Hm]].
+  destruct (g_in _ _ _ _ _ (c_good _ _ C) x H1) as [Hx _].
+  destruct (c_j _ _ C x Hx) as [_ [_ J3]]. destruct (J3 (Hm x Hx H1)) as [E _].
+  unfold upd_sets_id in H2. rewrite E in H2. discriminate.
+Qed.
+
+Lemma lists_fks : forall fs fs', map lists_of fs' = map lists_of fs -> map fks fs' = map fks fs.
+Proof.
+  induction fs as [|a fs IH]; intros [|b fs'] Q; try discriminate; auto.
+  cbn in Q. injection Q as E1 E2 E3 E4 E5 E6 E7 E8 E9. cbn. rewrite E4. f_equal. apply IH; auto.
+Qed.
+
+(* what a successful SessionTransaction.commit of the innermost frame leaves *)
+Definition CommitDone (st : sess) (f : frame) (rest : list frame) (st' : sess) : Prop :=
+  is_clean st' = true /\
+  match rest with
+  | [] => stack st' = []
+  | p :: rest' => exists m rest2, stack st' = m :: rest2 /\ map lists_of rest2 = map lists_of rest' /\ length rest2 = length rest' /\
+                    fstate m = ACTIVE /\ fid m = fid p /\
+                    (forall x, kdom (fks m) x -> hdA st x \/ kdom (fks p) x)
+  end.
+
+Lemma commit_head_core : forall st gs f rest r st', Core st gs -> stack st = f :: rest ->
+  PD (hdA st) (firstn 1 (map fks rest)) ->
+  commit_head st = (r, st') -> r <> Unmodelled ->
+  nobj st' = nobj st /\ handles st' = handles st /\ eoc st' = eoc st /\
+  ((r <> Ok /\ Core st' gs /\ committed st' = committed st /\ ids st' = ids st /\
+    map lists_of (tl (stack st')) = map lists_of (tl (stack st))) \/
+   (r = Ok /\ exists gs', Core st' gs' /\ CommitDone st f rest st')).
+Proof.
+  intros st gs f rest r st' C Hs HP H Hr.
+  destruct (Core_head_state st gs f rest C Hs) as [Hf|Hf].
+  2:{ unfold commit_head in H. rewrite Hs in H. unfold check_prereq in H. rewrite Hf in H. cbn in H.
+      inversion H; subst. repeat split; auto. left. split; [discriminate|]. split; [exact C|]. repeat split; reflexivity. }
+  rewrite (commit_head_split st f rest Hs Hf) in H. apply bind_inv in H. destruct H as [[s1 [H1 H2]]|[H1 Hn]].
+  2:{ destruct (flush_loop_core 98 st gs r st' C H1 Hr) as [C1 P1].
+      destruct P1 as (A1 & A2 & A3 & A4 & A5 & A6 & A7 & A8 & A9).
+      repeat split; auto. left. split; [exact Hn|]. split; [exact C1|]. repeat split; auto. }
+  destruct (flush_loop_core 98 st gs Ok s1 C H1) as [C1 P1]; [discriminate|].
+  destruct P1 as (A1 & A2 & A3 & A4 & A5 & A6 & A7 & A8 & A9). destruct (A8 eq_refl) as [Cl [Hh Kg]].
+  destruct (stack s1) as [|f1 rest1] eqn:Hs1.
+  { unfold hd_state in Hh. rewrite Hs, Hs1 in Hh. discriminate. }
+  assert (Hf1 : fstate f1 = ACTIVE) by (unfold hd_state in Hh; rewrite Hs, Hs1 in Hh; congruence).
+  rewrite Hs in A7. cbn [tl] in A7.
+  unfold KsGrow in Kg. rewrite Hs, Hs1 in Kg.
+  destruct (Core_shape s1 gs f1 rest1 C1 Hs1) as [g [gs' Eg]]. subst gs.
+  destruct rest as [|p rest'].
+  - (* the outermost transaction *)
+    destruct rest1 as [|x1 r1]; [|discriminate].
+    assert (Hn1 : fnested f1 = false).
+    { destruct C1 as [_ _ D _ _]. destruct D as [D1 _ _ _]. rewrite Hs1 in D1. cbn in D1. destruct D1 as [_ [_ [F3 _]]].
+      destruct (fnested f1); auto. destruct F3 as [F3 _]. exfalso. apply (F3 eq_refl). reflexivity. }
+    rewrite (commit_tail_root s1 f1 Hs1 Hn1 Hf1) in H2. inversion H2; subst r st'.
+    destruct (root_final_core s1 g gs' f1 C1 Hs1 Hf1 Cl) as (R1 & R2 & R3 & R4 & R5 & R6 & R7 & R8 & R9).
+    split; [congruence|]. split; [congruence|]. split; [congruence|].
+    right. split; [reflexivity|]. exists []. split; [exact R1|]. split; [exact R3|exact R2].
+  - (* a savepoint *)
+    destruct rest1 as [|p1 rest1']; [discriminate|].
+    cbn [map] in A7. injection A7 as Q1 Q2 Q3 Q4 Q5 Q6 Q7 Q8 Q9.
+    assert (Hg : forall x, ks_find x (fks f1) <> None -> ks_find x (fks p1) = None).
+    { intros x Hx. cbn [map firstn PD] in HP. destruct HP as [HP _]. rewrite Q4.
+      destruct (ks_find x (fks p)) eqn:E; auto. exfalso. apply (HP x); [|unfold kdom; rewrite E; discriminate].
+      unfold hdA. rewrite Hs. destruct (Kg x Hx) as [K|K]; [left; exact K|right; exact K]. }
+    destruct (nested_final_core s1 g gs' f1 p1 rest1' C1 Hs1 Hf1 Cl Hg) as [CF [Hn1 Hsv]].
+    rewrite (commit_tail_nested s1 f1 p1 rest1' Hs1 Hn1 Hf1 Hsv) in H2. inversion H2; subst r st'.
+    assert (E : nobj (nested_final s1 f1 p1 rest1') = nobj s1 /\ handles (nested_final s1 f1 p1 rest1') = handles s1 /\
+                eoc (nested_final s1 f1 p1 rest1') = eoc s1 /\ stack (nested_final s1 f1 p1 rest1') = merge_into p1 f1 :: rest1' /\
+                is_clean (nested_final s1 f1 p1 rest1') = is_clean s1).
+    { unfold nested_final. destruct (fconn f1); cbn; repeat split; reflexivity. }
+    destruct E as (E1 & E2 & E3 & E4 & E5).
+    split; [congruence|]. split; [congruence|]. split; [congruence|].
+    right. split; [reflexivity|]. exists gs'. split; [exact CF|]. split; [congruence|].
+    exists (merge_into p1 f1), rest1'. split; [exact E4|]. split; [exact Q9|].
+    split; [apply (f_equal (@length _)) in Q9; rewrite !map_length in Q9; exact Q9|].
+    split; [cbn; destruct C1 as [_ _ D _ _]; destruct D as [D1 _ _ _]; rewrite Hs1 in D1; cbn in D1;
+            destruct D1 as [_ [_ [_ [_ F5]]]]; apply F5; left; reflexivity|].
+    split; [cbn; congruence|].
+    intros x Hx. unfold kdom in Hx.
+    assert (Hk : ks_find x (fks (merge_into p1 f1)) = match ks_find x (fks f1) with Some e => Some e | None => ks_find x (fks p1) end).
+    { unfold merge_into. cbn. apply ks_find_fold.
+      destruct C1 as [_ _ _ Ch _]. unfold Chain in Ch. rewrite Hs1, Hf1 in Ch. destruct Ch as [_ [R _]]. apply (r_ksu _ _ _ _ _ _ _ R). }
+    rewrite Hk in Hx. destruct (ks_find x (fks f1)) eqn:E.
+    + left. unfold hdA. rewrite Hs. assert (X : ks_find x (fks f1) <> None) by (rewrite E; discriminate).
+      destruct (Kg x X) as [K|K]; [left; exact K|right; exact K].
+    + right. unfold kdom. rewrite <- Q4. exact Hx.
+Qed.
+
+Lemma PD_after_commit : forall st gs f p rest' st1 gs1 m rest2, Core st gs -> Core st1 gs1 -> stack st = f :: p :: rest' ->
+  PD (hdA st) (map fks (p :: rest')) -> is_clean st1 = true -> stack st1 = m :: rest2 -> map fks rest2 = map fks rest' ->
+  (forall x, kdom (fks m) x -> hdA st x \/ kdom (fks p) x) ->
+  PD (hdA st1) (map fks rest2).
+Proof.
+  intros st gs f p rest' st1 gs1 m rest2 C C1 Hs HP Hcl Hs1 Hk Hm.
+  cbn [map PD] in HP. destruct HP as [_ HP]. rewrite Hk. eapply PD_mono; [|exact HP].
+  intros x Hx. unfold hdA in Hx. rewrite Hs1 in Hx. destruct Hx as [Hx|Hx]; [apply Hm; exact Hx|].
+  exfalso. eapply clean_no_pend; eauto.
+Qed.
+
+(* Session.commit(): every frame, innermost first *)
+Lemma commit_all_core : forall fuel st gs r st', Core st gs -> PD (hdA st) (map fks (tl (stack st))) ->
+  length (stack st) < fuel -> commit_all fuel st = (r, st') -> r <> Unmodelled ->
+  exists gs', Core st' gs' /\ (r = Ok -> stack st' = [] /\ is_clean st' = true).
+Proof.
+  induction fuel as [|fuel IH]; intros st gs r st' C HP Hl H Hr; [lia|].
+  cbn [commit_all] in H. destruct (stack st) as [|f rest] eqn:Hs.
+  { inversion H; subst. exists gs. split; [exact C|]. intros _. split; [exact Hs|]. exact (c_empty _ _ C Hs). }
+  cbn [tl] in HP.
+  apply bind_inv in H. destruct H as [[s1 [H1 H2]]|[H1 Hn]].
+  - destruct (commit_head_core st gs f rest Ok s1 C Hs (PD_firstn _ _ 1 HP) H1) as (_ & _ & _ & [[X _]|[_ [gs1 [C1 [Cl1 CD]]]]]);
+      [discriminate|congruence|].
+    destruct rest as [|p rest'].
+    + destruct fuel as [|fuel']; [cbn in Hl; lia|]. cbn [commit_all] in H2. rewrite CD in H2. inversion H2; subst.
+      exists gs1. split; [exact C1|]. auto.
+    + destruct CD as (m & rest2 & S1 & K1 & L1 & M1 & I1 & D1).
+      apply (IH s1 gs1 r st' C1); auto.
+      * rewrite S1. cbn [tl]. apply (PD_after_commit st gs f p rest' s1 gs1 m rest2); auto. apply lists_fks; exact K1.
+      * rewrite S1. cbn in *. lia.
+  - destruct (commit_head_core st gs f rest r st' C Hs (PD_firstn _ _ 1 HP) H1 Hr) as (_ & _ & _ & [[X [C1 _]]|[X _]]); [|congruence].
+    exists gs. split; [exact C1|]. intros Y. congruence.
+Qed.
+
+(* handle.commit(): the frames above the handle's frame, innermost first, then the frame itself *)
+Lemma fup_head : forall n p r, exists X, frames_upto_parent n (p :: r) = p :: X.
+Proof. intros. cbn. destruct (Nat.eqb (fid p) n); eauto. Qed.
+
+Lemma fup_lists : forall n a b, map lists_of a = map lists_of b ->
+  map fks (frames_upto_parent n a) = map fks (frames_upto_parent n b).
+Proof.
+  intros n. induction a as [|x a IH]; intros [|y b] Q; try discriminate; auto.
+  cbn in Q. injection Q as E1 E2 E3 E4 E5 E6 E7 E8 E9. cbn [frames_upto_parent]. rewrite E6.
+  destruct (Nat.eqb (fid y) n).
+  - cbn [map]. rewrite E4. f_equal. rewrite <- !firstn_map. f_equal. apply lists_fks. exact E9.
+  - cbn [map]. rewrite E4. f_equal. apply IH. exact E9.
+Qed.
+
+Lemma commit_upto_core : forall fuel n st gs r st', Core st gs ->
+  PD (hdA st) (map fks (tl (frames_upto_parent n (stack st)))) ->
+  commit_upto fuel n st = (r, st') -> r <> Unmodelled ->
+  exists gs', Core st' gs' /\ (r = Ok -> is_clean st' = true).
+Proof.
+  induction fuel as [|fuel IH]; intros n st gs r st' C HP H Hr; [inversion H; subst; congruence|].
+  cbn [commit_upto] in H. unfold head_is in H.
+  destruct (stack st) as [|f rest] eqn:Hs.
+  { (* no transaction: commit_head is outside the model *)
+    apply bind_inv in H. unfold commit_head in H. rewrite Hs in H. destruct H as [[s1 [H1 _]]|[H1 _]]; inversion H1; subst; congruence. }
+  cbn [frames_upto_parent] in HP.
+  destruct (Nat.eqb (fid f) n) eqn:En.
+  - cbn [tl] in HP. rewrite <- firstn_map in HP.
+    destruct (commit_head_core st gs f rest r st' C Hs HP H Hr) as (_ & _ & _ & [[X [C1 _]]|[X [gs1 [C1 [Cl1 _]]]]]).
+    + exists gs. split; [exact C1|]. intros Y; congruence.
+    + exists gs1. split; [exact C1|]. auto.
+  - cbn [tl] in HP.
+    assert (HP1 : PD (hdA st) (firstn 1 (map fks rest))).
+    { destruct rest as [|p rest']; [exact I|]. destruct (fup_head n p rest') as [X EX]. rewrite EX in HP.
+      cbn [map firstn PD] in *. destruct HP as [A _]. split; [exact A|exact I]. }
+    apply bind_inv in H. destruct H as [[s1 [H1 H2]]|[H1 Hn]].
+    + destruct (commit_head_core st gs f rest Ok s1 C Hs HP1 H1) as (_ & _ & _ & [[X _]|[_ [gs1 [C1 [Cl1 CD]]]]]);
+        [discriminate|congruence|].
+      destruct rest as [|p rest'].
+      * (* the outermost transaction was committed and the handle's frame was not found: outside the model *)
+        destruct fuel; cbn [commit_upto] in H2; [inversion H2; subst; congruence|].
+        unfold head_is in H2. rewrite CD in H2. apply bind_inv in H2. unfold commit_head in H2. rewrite CD in H2.
+        destruct H2 as [[s2 [X _]]|[X _]]; inversion X; subst; congruence.
+      * destruct CD as (m & rest2 & S1 & K1 & L1 & M1 & I1 & D1).
+        apply (IH n s1 gs1 r st' C1); auto.
+        rewrite S1. cbn [frames_upto_parent]. rewrite I1.
+        cbn [frames_upto_parent] in HP.
+        assert (Q : PD (hdA s1) (map fks (tl (p :: (if Nat.eqb (fid p) n then firstn 1 rest' else frames_upto_parent n rest'))))).
+        { cbn [tl]. destruct (Nat.eqb (fid p) n); cbn [map PD] in HP; destruct HP as [_ HP];
+            (eapply PD_mono; [|exact HP]); intros x Hx; unfold hdA in Hx; rewrite S1 in Hx;
+            (destruct Hx as [Hx|Hx]; [apply D1; exact Hx|exfalso; eapply clean_no_pend; eauto]). }
+        destruct (Nat.eqb (fid p) n); cbn [tl] in *.
+        -- rewrite <- firstn_map. rewrite (lists_fks _ _ K1). rewrite firstn_map. exact Q.
+        -- rewrite (fup_lists n rest2 rest' K1). exact Q.
+    + destruct (commit_head_core st gs f rest r st' C Hs HP1 H1 Hr) as (_ & _ & _ & [[X [C1 _]]|[X _]]); [|congruence].
+      exists gs. split; [exact C1|]. intros Y. congruence.
+Qed.
+
+(* ------------------------------------------------------------------ the boolean guard g2 gives PD *)
+Lemma ks_find_in : forall x l, ks_find x l <> None <-> In x (map fst l).
+Proof.
+  intros x l. split.
+  - intros H. destruct (in_dec Nat.eq_dec x (map fst l)) as [I|N]; auto. exfalso. apply H. apply ks_find_notin. exact N.
+  - induction l as [|[a p] l IH]; cbn; [tauto|]. intros [E|E].
+    + subst. rewrite Nat.eqb_refl. discriminate.
+    + destruct (Nat.eqb a x); [discriminate|auto].
+Qed.
+
+Lemma PD_of_disjoint : forall (r : list frame) (A : nat -> Prop),
+  (forall x, A x -> forall q, In q r -> ~ kdom (fks q) x) -> disjoint_all (map ks_dom r) = true -> PD A (map fks r).
+Proof.
+  induction r as [|p r IH]; intros A HA HD; cbn [map PD]; auto.
+  cbn [map disjoint_all] in HD. apply andb_prop in HD. destruct HD as [HD1 HD2]. split.
+  - intros x Hx. apply (HA x Hx p). left; reflexivity.
+  - apply IH; auto. intros x [Hx|Hx] q Hq.
+    + apply (HA x Hx q). right; exact Hq.
+    + intros Hk. apply ks_find_in in Hx. apply ks_find_in in Hk.
+      rewrite forallb_forall in HD1. specialize (HD1 x Hx). apply negb_true_iff in HD1.
+      assert (X : existsb (mem x) (map ks_dom r) = true).
+      { apply existsb_exists. exists (ks_dom q). split; [apply in_map; exact Hq|apply mem_In; exact Hk]. }
+      congruence.
+Qed.
+
+Lemma guard_PD : forall st gs f r, Core st gs -> (exists rest, stack st = f :: rest) ->
+  disjoint_all ((ks_dom f ++ pending_switch st) :: map ks_dom r) = true -> PD (hdA st) (map fks r).
+Proof.
+  intros st gs f r C [rest Hs] H. cbn [disjoint_all] in H. apply andb_prop in H. destruct H as [H1 H2].
+  apply PD_of_disjoint; auto. intros x Hx q Hq Hk.
+  assert (Hin : In x (ks_dom f ++ pending_switch st)).
+  { unfold hdA in Hx. rewrite Hs in Hx. apply in_or_app. destruct Hx as [Hx|[X1 X2]].
+    - left. apply ks_find_in. exact Hx.
+    - right. unfold pending_switch. apply filter_In. split; [|rewrite X1, X2; reflexivity].
+      apply in_seq. destruct (g_in _ _ _ _ _ (c_good _ _ C) x X1) as [Y _]. cbn. lia. }
+  rewrite forallb_forall in H1. specialize (H1 x Hin). apply negb_true_iff in H1.
+  assert (X : existsb (mem x) (map ks_dom r) = true).
+  { apply existsb_exists. exists (ks_dom q). split; [apply in_map; exact Hq|apply mem_In; apply ks_find_in; exact Hk]. }
+  congruence.
+Qed.
+
+Lemma t_commit_core : forall st gs n r st', Core st gs -> g2_ok st n = true -> t_commit n st = (r, st') -> r <> Unmodelled ->
+  exists gs', Core st' gs' /\ (r = Ok -> is_clean st' = true).
+Proof.
+  intros st gs n r st' C Hg H Hr. unfold t_commit in H.
+  destruct (find_frame n st) as [fr|] eqn:Ef; [|inversion H; subst; exists gs; split; [exact C|intros X; discriminate]].
+  assert (HP : PD (hdA st) (map fks (tl (frames_upto_parent n (stack st))))).
+  { unfold g2_ok in Hg. destruct (stack st) as [|f rest] eqn:Hs; [exact I|].
+    destruct (fup_head n f rest) as [X EX]. rewrite EX in *. cbn [tl].
+    rewrite <- Hs in EX. apply (guard_PD st gs f X C); eauto. }
+  destruct (check_prereq fr M_commit); [inversion H; subst; exists gs; split; [exact C|intros X; discriminate]|].
+  destruct (tstate_eqb (fstate fr) PREPARED).
+  - eapply commit_upto_core; eauto.
+  - destruct (check_prereq fr M_prepare); [inversion H; subst; exists gs; split; [exact C|intros X; discriminate]|].
+    eapply commit_upto_core; eauto.
 Qed.
